@@ -112,6 +112,9 @@ func recacheAggregatorContext(ctx sdk.Context, agc *aggregator.AggregatorContext
 		setCommonParams(p)
 	} else {
 		prev := int64(0)
+		// MsgItem does not keep the nonce: give every replayed message its own (negative, so never a real one) nonce,
+		// otherwise the filter drops all but the first message of a validator in a round
+		replayNonce := int32(0)
 		for ; from < to; from++ {
 			// fill params
 			for b, p = range recentParamsMap {
@@ -130,10 +133,12 @@ func recacheAggregatorContext(ctx sdk.Context, agc *aggregator.AggregatorContext
 				for _, msg := range msgs {
 					// these messages are retreived for recache, just skip the validation check and fill the memory cache
 					//nolint
+					replayNonce--
 					agc.FillPrice(&types.MsgCreatePrice{
 						Creator:  msg.Validator,
 						FeederID: msg.FeederID,
 						Prices:   msg.PSources,
+						Nonce:    replayNonce,
 					})
 				}
 			}
